@@ -202,7 +202,7 @@ func TestVerif_C13_h1w(t *testing.T) {
 		"real persistConn.writeRequest into bufio.NewWriterSize(rec, B), B in {16,64,4096}, rec failing after `limit` bytes in a fifth of the cases; methods POST/PUT/PATCH/GET/DELETE/CONNECT/custom; 0..5 headers incl. lines longer than B; body none / in-memory / scripted reader with Content-Length exact or unknown (chunked; CONNECT: unframed stream), sizes 0,1,B-1..B+1,2B+3,..3B+, read scripts (1-byte, random, whole), EOF with or after the data, a body read error at a random read; 0..2 synchronous dumpers (client level + request level) with random part flags; every case runs with the dumpers and without: both against the Lean write program (wire bytes at return, bytes still buffered, header dump, body dump, withheld byte count at every body Read) and against each other (same bytes; for chunked / CONNECT streams the same withheld counts: the flush schedule does not depend on dump); non-trivial = a body of at least two reads or a failing wire")
 	r := s.Rand()
 	cnt := c13Counter{}
-	n := verifh.N(1200, 40000)
+	n := verifh.N(1200, 25000)
 	for c := 0; c < n; c++ {
 		tc := &c13H1WCase{B: verifh.Pick(r, []int{16, 64, 64, 4096}), limit: -1, failAt: -1}
 		tc.method = verifh.Pick(r, []string{"POST", "POST", "PUT", "PATCH", "GET", "DELETE", "CONNECT", "CONNECT", "FOO"})
@@ -260,7 +260,9 @@ func TestVerif_C13_h1w(t *testing.T) {
 				tc.failAt = r.Intn(len(tc.body) + 1)
 			}
 		}
-		if r.Intn(5) == 0 {
+		if r.Intn(5) == 0 && tc.failAt < 0 {
+			// (one failure per case: with a failing body AND a failing wire which of the two ends
+			// the request depends on the copy path, legitimately)
 			tc.limit = r.Intn(len(tc.body) + 200)
 		}
 		// dumpers
